@@ -32,6 +32,22 @@ MUTANTS = [
      "            return consts.LABEL_TUPLE, tuple(self._box(item) for item in (obj if len(obj) != 1 else obj + obj))"),
     ("c01-pin-removed", "C01", "rpyc/core/protocol.py",
      "                _pinned = {}\n                self._pin_local_refs(package, _pinned)", "                pass"),
+    # ---- C03
+    ("c03-dumpable-isinstance", "C03", "rpyc/core/brine.py",
+     "    if type(obj) in simple_types:\n        return True", "    if isinstance(obj, tuple(simple_types)):\n        return True"),
+    ("c03-cache-not-used", "C03", "rpyc/core/protocol.py",
+     "            if id_pack in self._proxy_cache:\n                proxy = self._proxy_cache[id_pack]\n                proxy.____refcount__ += 1",
+     "            if id_pack in self._proxy_cache and id_pack[2] % 32 == 0:\n                proxy = self._proxy_cache[id_pack]\n                proxy.____refcount__ += 1"),
+    ("c03-no-recheck", "C03", "rpyc/core/protocol.py",
+     "                cls = self._netref_class(id_pack)\n            if id_pack in self._proxy_cache:",
+     "                cls = self._netref_class(id_pack)\n            if False:"),
+    ("c03-localref-copy", "C03", "rpyc/core/protocol.py",
+     "            if _pinned is not None:\n                return _pinned[value]",
+     "            if _pinned is not None:\n                import copy\n                return copy.copy(_pinned[value]) if type(_pinned[value]) in (list, dict, set) else _pinned[value]"),
+    ("c03-tuple-subclass-by-value", "C03", "rpyc/core/protocol.py",
+     "        if type(obj) is tuple:\n            return consts.LABEL_TUPLE", "        if isinstance(obj, tuple):\n            return consts.LABEL_TUPLE"),
+    ("c03-float-via-str", "C03", "rpyc/core/brine.py",
+     "    stream.append(TAG_FLOAT + F8.pack(obj))", "    stream.append(TAG_FLOAT + F8.pack(float(repr(obj))))"),
     # ---- C05
     ("c05-read-short", "C05", "rpyc/core/stream.py",
      "            data.append(buf)\n            count -= len(buf)\n        return BYTES_LITERAL(\"\").join(data)\n\n    def write(self, data):\n        try:\n            while data:\n                count = self.sock.send",
